@@ -73,6 +73,21 @@ def many_warnings(ctx, L):
                 return
 
 
+# shrunk witnesses of repaired defects, replayed in every run (type, command code, encryption flag, input)
+REGRESSIONS = [
+    ("Response", 0x154, False, "80020000001500000000000000060005000000000000"),  # F-21: negative padding un-counted a byte of responseSize
+    ("Response", 0x154, False, "800200000016000000000000000600050000000000000000"),
+    ("Response", 0x17B, False, "80020000001300000000000000040003000000000000"),
+]
+
+
+def regressions(ctx, L):
+    for t, cc, enc, hx in REGRESSIONS:
+        ctx.count("regression-inputs")
+        if not judge_c08(ctx, L, t, cc, enc, bytes.fromhex(hx), "regression"):
+            return
+
+
 def synthetic_part(ctx, max_len):
     LS = synthetic.extended_layout(layout())
     for t in synthetic.TOP_TYPES:
@@ -86,6 +101,8 @@ def run_shard(ctx):
     L = layout()
     q = ctx.quick()
     ctx.run_plain(lambda: synthetic_part(ctx, 7 if q else 9), "synthetic")
+    if ctx.shard == 0:
+        ctx.run_plain(lambda: regressions(ctx, L), "regressions")
     from .common import primitive_sweep
 
     ctx.run_plain(lambda: primitive_sweep(ctx, L, lambda t, data, ok: judge_c08(ctx, L, t, None, False, data, "primitive-sweep", value_only=not ok)), "primitive-sweep")
